@@ -263,3 +263,91 @@ def json_equal(a, b):
     if isinstance(a, dict) and isinstance(b, dict):
         return a.keys() == b.keys() and all(json_equal(a[k], b[k]) for k in a)
     return False
+
+
+# ---------------------------------------------------------------------------- strict layout check (C17)
+
+import re as _re
+
+_HEX2 = _re.compile(r"^[0-9a-f]{2}$")
+_FIELDS = {"key", "integrity", "time", "size", "metadata", "raw_metadata"}
+
+
+def strict_tree_check(snap, xxh3=None, allow_tmp_files=False):
+    """Problems (list of strings) with a tree the library produced, against the documented layout."""
+    probs = []
+    for rel, e in (snap or {}).items():
+        parts = rel.split("/")
+        top = parts[0]
+        if top not in (INDEX_DIR, CONTENT_DIR, "tmp"):
+            probs.append("unexpected top-level entry %r" % rel)
+            continue
+        if top == "tmp":
+            if len(parts) > 1 and not allow_tmp_files:
+                probs.append("left-over temp entry %r" % rel)
+            continue
+        if e[0] == "d":
+            if top == INDEX_DIR and len(parts) > 3 or top == CONTENT_DIR and len(parts) > 4:
+                probs.append("directory too deep: %r" % rel)
+            continue
+        if e[0] != "f":
+            probs.append("non-regular entry %r (%s)" % (rel, e[0]))
+            continue
+        if top == INDEX_DIR:
+            if not (len(parts) == 4 and _HEX2.match(parts[1]) and _HEX2.match(parts[2]) and _re.match(r"^[0-9a-f]{36}$", parts[3])):
+                probs.append("bucket path not index-v5/hh/hh/<36 hex>: %r" % rel)
+                continue
+            probs += strict_bucket_check(rel, e[1])
+        else:
+            ok = content_path_ok(rel, e[1], xxh3)
+            if ok is False:
+                probs.append("content file %r does not sit at the digest of its bytes" % rel)
+    return probs
+
+
+def strict_bucket_check(rel, data):
+    probs = []
+    if data == b"":
+        return probs
+    if not data.startswith(b"\n"):
+        return ["bucket %s does not start with a newline" % rel]
+    for line in data[1:].split(b"\n"):
+        try:
+            text = line.decode("utf-8")
+        except UnicodeDecodeError:
+            probs.append("bucket %s: line is not UTF-8" % rel)
+            continue
+        m = _re.match(r"^([0-9a-f]{64})\t(.*)$", text, _re.S)
+        if not m:
+            probs.append("bucket %s: line is not <64 hex>\\t<json>: %r" % (rel, text[:60]))
+            continue
+        h, js = m.groups()
+        if "\t" in js or "\r" in js:
+            probs.append("bucket %s: raw tab/CR inside the JSON text" % rel)
+        if sha256hex(js.encode("utf-8")) != h:
+            probs.append("bucket %s: checksum is not the SHA-256 of the JSON text" % rel)
+            continue
+        try:
+            v = _parse_json_exact(js)
+        except ValueError:
+            probs.append("bucket %s: JSON does not parse" % rel)
+            continue
+        if not isinstance(v, dict) or set(v.keys()) != _FIELDS:
+            probs.append("bucket %s: record fields are %r" % (rel, sorted(v.keys()) if isinstance(v, dict) else type(v)))
+            continue
+        if not isinstance(v["key"], str) or bucket_rel(v["key"]) != rel:
+            probs.append("bucket %s: holds key %r whose SHA-1 path is %s" % (rel, v["key"], bucket_rel(v["key"]) if isinstance(v["key"], str) else "?"))
+        if v["integrity"] is not None and not (isinstance(v["integrity"], str) and valid_sri(v["integrity"])):
+            probs.append("bucket %s: integrity %r is not a well-formed single hash" % (rel, v["integrity"]))
+        if decode_line(line) is None:
+            probs.append("bucket %s: reference decoder rejects a record the library wrote" % rel)
+    return probs
+
+
+def add_parent_dirs(snap):
+    for rel in list(snap):
+        p = os.path.dirname(rel)
+        while p:
+            snap.setdefault(p, ("d",))
+            p = os.path.dirname(p)
+    return snap
